@@ -154,6 +154,30 @@ def h_life(ctx, cfg):
     ctx.prove(train.size + test.size == R, "training + hold-out = prepared screen")
     _check_stage(ctx, train, parent, "the hold-out split (training)", theta, ref_pred_of)
     _check_stage(ctx, test, parent, "the hold-out split (test)", theta, ref_pred_of)
+    # the model trained on the training screen (train_model command) sizes its embeddings by the prepared screen's id spaces
+    if cfg.get("train", True) and cfg["L"] <= 2:
+        tm = ctx.mod("batchie.cli.train_model")
+        captured = {}
+
+        def fake_sample(model, results, **kw2):
+            captured["model"] = model
+            results.add_theta(model.get_model_state())
+            return results
+        tfn = ctx.tmp("train_for_model.h5")
+        train.save_h5(tfn)
+        saved_sample = tm.sampling.sample
+        tm.sampling.sample = fake_sample
+        try:
+            cli_argv(ctx, "batchie.cli.train_model", ["--data", tfn, "--model", "SparseDrugCombo", "--model-param", "n_embedding_dimensions=1",
+                                                      "--output", ctx.tmp("thetas_for_model.h5"), "--n-samples", 1, "--n-burnin", 0, "--thin", 1])
+        finally:
+            tm.sampling.sample = saved_sample
+        if "model" in captured:
+            m = captured["model"]
+            ctx.prove(m.n_unique_samples == parent.sample_space_size and m.n_unique_treatments == len([i for i in parent.treatment_mapping[2].tolist() if i != -1]),
+                      "the model trained on the training screen has one embedding row per sample / treatment id of the prepared screen",
+                      key="embedding sizes of the trained model differ from the prepared screen's id spaces")
+
     def snap(x):
         return (x.sample_ids.tolist(), x.treatment_ids.tolist(), [a.tolist() for a in x.sample_mapping], [a.tolist() for a in x.treatment_mapping],
                 x.observation_mask.tolist(), x.plate_ids.tolist())
